@@ -294,7 +294,10 @@ pub fn damage(r: &mut Rng, doc: &[u8]) -> Vec<u8> {
 pub const BOUNDARIES: &[usize] = &[15, 16, 17, 31, 32, 33, 63, 64, 65, 66, 127, 128, 129, 255, 256, 257, 258, 300];
 
 /// the kinds of boundary sessions
-pub const BOUNDARY_KINDS: usize = 6;
+pub const BOUNDARY_KINDS: usize = 7;
+
+/// lengths of character data around which a buffer, a length limit or a chunk boundary may sit
+pub const LONG_TEXT: &[usize] = &[255, 256, 257, 1023, 1024, 1025, 4095, 4096, 4097, 8191, 8192, 8193, 65535, 65536, 65537];
 
 /// One session (1-2 documents) built around a boundary size n: a chain n levels deep (every level its own name, or
 /// three names in rotation), n distinct children, n attributes, a child repeated n times, a name n characters long.
@@ -343,6 +346,28 @@ pub fn boundary_session(r: &mut Rng, kind: usize, n: usize) -> Vec<Vec<u8>> {
         4 => {
             let reps: String = (0..n).map(|i| if i % 2 == 0 { "<k/>".to_string() } else { format!("<k>t{:03}</k>", i) }).collect();
             vec![format!("<r><g>{}</g><g><k/></g></r>", reps).into_bytes()]
+        }
+        6 => {
+            // character data of a boundary length: a multi-byte character straddling the boundary (valid), or a byte that
+            // is not UTF-8 behind it (the verdict is the independent reader pass's business), as text or as CDATA
+            let len = LONG_TEXT[(n + r.below(LONG_TEXT.len())) % LONG_TEXT.len()];
+            let mut body: Vec<u8> = (0..len - 1).map(|i| b'a' + (i % 26) as u8).collect();
+            match r.below(4) {
+                0 => body.extend_from_slice("\u{e9}tail".as_bytes()),
+                1 => body.extend_from_slice("x\u{20ac}\u{1F600}".as_bytes()),
+                2 => body.extend_from_slice(b"xy\xfftail"),
+                _ => body.extend_from_slice(b"x\xe2\x82"),
+            }
+            let mut out = b"<r><a>".to_vec();
+            if r.chance(1, 2) {
+                out.extend_from_slice(b"<![CDATA[");
+                out.extend_from_slice(&body);
+                out.extend_from_slice(b"]]>");
+            } else {
+                out.extend_from_slice(&body);
+            }
+            out.extend_from_slice(b"</a><b/></r>");
+            vec![out]
         }
         _ => {
             let long: String = (0..n).map(|i| if i % 9 == 8 { '_' } else { (b'a' + (i % 26) as u8) as char }).collect();
